@@ -221,6 +221,22 @@ fn operands(i: &Instruction, pre: &Snap) -> Option<(Vec<Opnd>, bool)> {
             let (a, b, c) = o.unpack();
             (vec![wr(r(a), 32), rd(r(b), r(c))], false)
         }
+        // signature recovery: 64-byte key (or 64 zero bytes when recovery fails) written at
+        // $rA, signature at $rB, message hash at $rC
+        Instruction::ECK1(o) => {
+            let (a, b, c) = o.unpack();
+            (vec![wr(r(a), 64), rd(r(b), 64), rd(r(c), 32)], false)
+        }
+        Instruction::ECR1(o) => {
+            let (a, b, c) = o.unpack();
+            (vec![wr(r(a), 64), rd(r(b), 64), rd(r(c), 32)], false)
+        }
+        // ed25519 verification only reads: key, signature, message of $rD bytes (0 = 32)
+        Instruction::ED19(o) => {
+            let (a, b, c, d) = o.unpack();
+            let l = if r(d) == 0 { 32 } else { r(d) };
+            (vec![rd(r(a), 32), rd(r(b), 64), rd(r(c), l)], false)
+        }
         _ => return None,
     })
 }
@@ -634,7 +650,7 @@ fn scenario_opts(idx: u64, rng: &mut Rng) -> ScenarioOpts {
     w.stack = 10;
     w.call = 14;
     w.frame = 14;
-    w.crypto = 3;
+    w.crypto = 5;
     w.hostile = match idx % 5 {
         0 => 250,
         1 => 40,
@@ -761,7 +777,7 @@ pub fn run(cfg: &Cfg) -> Report {
         rep.gate("steps_growing_the_heap", rep.counter("steps_growing_the_heap"), 500);
         rep.gate("cases_on_reused_memory", rep.counter("cases_on_reused_memory"), 500);
     }
-    rep.rule = "every single-stepped instruction of generated scripts/contracts (nested calls, callee ALOC, stack shrink/regrow, accesses aimed at $ssp/$sp/$hp/saved $hp boundaries, the caller's frame, code, tx image, balance table, end of memory): (1) bytes that differ between the address views before/after the step must lie in [$ssp, max $sp) or [$hp_post, prev_hp) or the VM's own write set of the opcode (CALL frame+code, LDC code + code-size word, balance entry, TRO output, PSH*, output finalisation at program end); newly accessible bytes read zero (also on reused, dirtied VM memory); (2) operand ranges of LB/LW/LHW/LQW, SB/SW/SHW/SQW, MCL(I), MCP(I), MEQ, LOGD, RETD, S256, K256 from the pre registers: inaccessible or unowned => panic from the expected reason set and never completes; accessible+owned => not refused for a memory reason. class = (diff|access, opcode, region class, outcome)".into();
+    rep.rule = "every single-stepped instruction of generated scripts/contracts (nested calls, callee ALOC, stack shrink/regrow, accesses aimed at $ssp/$sp/$hp/saved $hp boundaries, the caller's frame, code, tx image, balance table, end of memory): (1) bytes that differ between the address views before/after the step must lie in [$ssp, max $sp) or [$hp_post, prev_hp) or the VM's own write set of the opcode (CALL frame+code, LDC code + code-size word, balance entry, TRO output, PSH*, output finalisation at program end); newly accessible bytes read zero (also on reused, dirtied VM memory); (2) operand ranges of LB/LW/LHW/LQW, SB/SW/SHW/SQW, MCL(I), MCP(I), MEQ, LOGD, RETD, S256, K256, ECK1, ECR1, ED19 from the pre registers: inaccessible or unowned => panic from the expected reason set and never completes; accessible+owned => not refused for a memory reason. class = (diff|access, opcode, region class, outcome)".into();
     rep.assume("flat memory model: an address is accessible iff it is below the stack's high-water mark (raw stack extent) or at/above $hp; prev_hp = caller's saved $hp read from the call frame in memory at $fp + 120, 2^26 in a script");
     rep.assume("layout of the tx image (offset of a variable output) taken from fuel-tx (`outputs_offset_at`, `Output::size`)");
     rep.note("zero-length operands at addresses <= 2^26, self-jumps under single-stepping and steps that end in a non-panic interpreter error are counted, not judged; reads between $sp and the stack's high-water mark succeed in the VM and are counted (observed_reads_between_sp_and_stack_extent)");
